@@ -189,54 +189,89 @@ pub mod sync {
         }
     }
 
+    /// parking_lot-compatible reader-writer lock. parking_lot prefers writers: once a writer
+    /// is parked on the lock, new `read()` calls queue behind it (which is why a recursive
+    /// `read()` can deadlock). The shim models that policy when the controller switches the
+    /// cooperative fault point "rwlock.writer_preference" on for the run; otherwise readers
+    /// may overtake a waiting writer (also a legal behaviour: the writer may still be spinning).
     #[derive(Debug, Default)]
-    pub struct RwLock<T>(parking_lot::RwLock<T>);
+    pub struct RwLock<T> {
+        inner: parking_lot::RwLock<T>,
+        writers_waiting: std::sync::atomic::AtomicUsize,
+    }
 
     impl<T> RwLock<T> {
         pub const fn new(value: T) -> Self {
-            Self(parking_lot::RwLock::new(value))
+            Self {
+                inner: parking_lot::RwLock::new(value),
+                writers_waiting: std::sync::atomic::AtomicUsize::new(0),
+            }
         }
 
         pub fn read(&self) -> RwLockReadGuard<'_, T> {
+            use std::sync::atomic::Ordering;
             let Some(c) = controller() else {
-                return self.0.read();
+                return self.inner.read();
             };
             c.yield_point("rwlock.read");
             loop {
-                if let Some(guard) = self.0.try_read() {
-                    return guard;
+                let behind_writer = self.writers_waiting.load(Ordering::SeqCst) > 0
+                    && c.fail_at("rwlock.writer_preference");
+                if !behind_writer {
+                    if let Some(guard) = self.inner.try_read() {
+                        return guard;
+                    }
+                    c.block_on(
+                        "rwlock.read_wait",
+                        &|| !self.inner.is_locked_exclusive(),
+                        None,
+                    );
+                } else {
+                    c.block_on(
+                        "rwlock.read_wait_behind_writer",
+                        &|| {
+                            !self.inner.is_locked_exclusive()
+                                && self.writers_waiting.load(Ordering::SeqCst) == 0
+                        },
+                        None,
+                    );
                 }
-                c.block_on("rwlock.read_wait", &|| !self.0.is_locked_exclusive(), None);
             }
         }
 
         pub fn write(&self) -> RwLockWriteGuard<'_, T> {
+            use std::sync::atomic::Ordering;
             let Some(c) = controller() else {
-                return self.0.write();
+                return self.inner.write();
             };
             c.yield_point("rwlock.write");
+            if let Some(guard) = self.inner.try_write() {
+                return guard;
+            }
+            self.writers_waiting.fetch_add(1, Ordering::SeqCst);
             loop {
-                if let Some(guard) = self.0.try_write() {
+                c.block_on("rwlock.write_wait", &|| !self.inner.is_locked(), None);
+                if let Some(guard) = self.inner.try_write() {
+                    self.writers_waiting.fetch_sub(1, Ordering::SeqCst);
                     return guard;
                 }
-                c.block_on("rwlock.write_wait", &|| !self.0.is_locked(), None);
             }
         }
 
         pub fn try_read(&self) -> Option<RwLockReadGuard<'_, T>> {
-            self.0.try_read()
+            self.inner.try_read()
         }
 
         pub fn try_write(&self) -> Option<RwLockWriteGuard<'_, T>> {
-            self.0.try_write()
+            self.inner.try_write()
         }
 
         pub fn is_locked(&self) -> bool {
-            self.0.is_locked()
+            self.inner.is_locked()
         }
 
         pub fn get_mut(&mut self) -> &mut T {
-            self.0.get_mut()
+            self.inner.get_mut()
         }
     }
 }
